@@ -851,6 +851,15 @@ func expiryAgreement(p *core.Program, r *core.Report, fns []*ssa.Function) {
 // c08Store: who may reach the store primitive, and a rejected store leaves no trace.
 func c08Store(p *core.Program, r *core.Report, fns []*ssa.Function) {
 	c := rc{p, r}
+	{
+		c := rc{p, r}
+		noAnswerBeforeTheScan(c, "cache.(*cache).DeleteExpired", "cache.(*Cache).MapToCache")
+		if sd, set := p.Func("cache.(*Cache).SetDefault"), p.Func("cache.(*Cache).Set"); sd != nil && set != nil {
+			okW, _ := returnsCallUnmodified(sd, set)
+			c.ob("PV1", "cache.(*Cache).SetDefault", "SetDefault is Set with the default duration", c.fpos(sd), okW, "SetDefault returns something other than the result of Set: some values are silently not stored")
+		}
+		workOnEveryPath(c, "cache.(*Cache).Flush", "map reset on every path", "cache", "items", nil, "Flush returns on a path that keeps the entries")
+	}
 	const T = "cache.(*Cache)."
 	put, add, set, update := c.helper(T+"put"), c.helper(T+"add"), c.fn(T+"Set"), c.fn(T+"Update")
 	if put == nil || set == nil || update == nil {
